@@ -592,7 +592,7 @@ func verifC04(c *drv.Ctx) {
 		}
 	}
 	x := vs.Run(nil, func(s *vs.Sched) {
-		s.Horizon = math.MaxInt64 / 2
+		s.Horizon = math.MaxInt / 2
 		s.RandFn = func(_ string, _ uint64, n uint64) uint64 { return c04rand.next(n) }
 	}, body)
 	for _, cr := range x.Crashes {
